@@ -599,6 +599,27 @@ def _const_pack(fn):
     raise Unsupported("no batch_constant parameter")
 
 
+def _bool_pack(fn):
+    """values of a batch_bool_constant<T, A, true, false, ...> parameter"""
+    for p in fn.ptypes:
+        if p.kind in ("empty", "tag") and p.core.startswith("xsimd::batch_bool_constant<"):
+            parts = [x.strip() for x in p.core[len("xsimd::batch_bool_constant<"):-1].split(",")]
+            vals = [1 if x == "true" else 0 for x in parts if x in ("true", "false")]
+            return vals
+    raise Unsupported("no batch_bool_constant parameter")
+
+
+@row("select", "BB", "B", prop="C19")
+def _select_const(ctx):
+    """select with a compile-time mask returns what the run-time select returns for the converted mask"""
+    pack = _bool_pack(ctx.fn)
+    if len(pack) != ctx.n:
+        raise Unsupported("constant mask of %d lanes for a batch of %d" % (len(pack), ctx.n))
+    a, b = ctx.args
+    R = ctx.ret = bind_ret(ctx, "B")
+    ctx.ensures += conj(["(%s == %s)" % (R.lane(i), (a if pack[i] else b).lane(i)) for i in range(ctx.n)])
+
+
 def _permute(fmap):
     """fmap(ctx, i) -> C expression (bit pattern) of output lane i"""
     def build(ctx):
